@@ -310,8 +310,15 @@ structure NCfg where
   keepSeparators : Bool
   maxSplit : Option Nat
 
-/-- `if max_split is not None and len(nodelists_list) >= max_split: no_more_splits = True` -/
+/-- `if max_split is not None and len(nodelists_list) > max_split: no_more_splits = True` (the repaired test: there
+    is one list more than splits made; the code as it was compared with `>=` and stopped one split early for
+    `max_split ≥ 2`, see `noMoreAfterAsIs`) -/
 def noMoreAfter : Option Nat → Nat → Bool → Bool
+  | some k, nl, _ => decide (k < nl)
+  | none, _, nm => nm
+
+/-- the test before the repair (F35) -/
+def noMoreAfterAsIs : Option Nat → Nat → Bool → Bool
   | some k, nl, _ => decide (k ≤ nl)
   | none, _, nm => nm
 
